@@ -1,4 +1,1286 @@
-//! remaining sweeps (stub)
+//! Engine D sweeps: C09 (every length fits its slot), C10 (typed keys), C13 (signatures), C14 (bulk).
 #![allow(dead_code)]
-use crate::pool::WorkerIo;
-pub fn worker_job(_kind: u8, _payload: &[u8], _io: &mut WorkerIo) -> Vec<u8> { Vec::new() }
+
+use crate::decoder;
+use crate::pool::{JobResult, WorkerIo};
+use crate::props_a::Ctx;
+use crate::report::{Replay, Violation};
+use crate::subject::*;
+use crate::util::{show, Buf, Rd, SplitMix, J};
+use abyssiniandb::filedb::FileDbMap;
+use abyssiniandb::{DbI64, DbMap, DbMapKeyType, DbU64, DbVu64, DbXxx, DbXxxBase, HashValue};
+use std::collections::BTreeMap;
+
+pub const JOB_F_C09: u8 = 60;
+pub const JOB_F_C10: u8 = 61;
+pub const JOB_F_C13: u8 = 62;
+pub const JOB_F_C14: u8 = 63;
+
+fn pat(seed: u64, len: usize) -> Vec<u8> {
+    crate::engine_a::value_bytes(seed, 3, 5, len)
+}
+
+fn result_ok(out: &mut Buf, evals: u64, nontrivial: u64) {
+    out.u8(0).u64(evals).u64(nontrivial);
+}
+fn result_bad(out: &mut Buf, key: &str, msg: &str, evals: u64, case: &[u8]) {
+    out.u8(1).str(key).str(msg).u64(evals).bytes(case);
+}
+
+// ---------------------------------------------------------------------------------------------
+// C09 (b): end-to-end sweep between two sentinels
+
+/// one length: sentinel, X(len), sentinel, then X overwritten with len+1 and len-1
+fn c09_one(dir: &std::path::Path, is_key: bool, len: usize, seed: u64) -> Result<u64, String> {
+    clear_dir(dir);
+    let p = Params::buckets(8);
+    let s1k = b"sentinel-1".to_vec();
+    let s2k = b"sentinel-2".to_vec();
+    let s1v = pat(seed ^ 1, 37);
+    let s2v = pat(seed ^ 2, 53);
+    let xk: Vec<u8> = if is_key { pat(seed ^ 3, len) } else { b"x-entry".to_vec() };
+    let mut model: BTreeMap<Vec<u8>, Vec<u8>> = BTreeMap::new();
+    let (db, mut m) = match open_map::<abyssiniandb::DbBytes>(dir, MAP_NAME, &p) {
+        Out::Ok(x) => x,
+        o => return Err(format!("open {}", o.failed().unwrap_or_default())),
+    };
+    let mut checks = 0u64;
+    let mut put = |m: &mut FileDbMap<abyssiniandb::DbBytes>, model: &mut BTreeMap<Vec<u8>, Vec<u8>>, k: &[u8], v: Vec<u8>| -> Result<(), String> {
+        let r = guard(|| m.put(k, &v));
+        if r != Out::Ok(()) {
+            return Err(format!("put of a {}-byte key with a {}-byte value {}", k.len(), v.len(), r.failed().unwrap_or_default()));
+        }
+        model.insert(k.to_vec(), v);
+        Ok(())
+    };
+    let verify = |m: &mut FileDbMap<abyssiniandb::DbBytes>, model: &BTreeMap<Vec<u8>, Vec<u8>>, when: &str| -> Result<(), String> {
+        for (k, v) in model {
+            let r = guard(|| m.get(&k[..]));
+            if r != Out::Ok(Some(v.clone())) {
+                let got = match &r {
+                    Out::Ok(Some(g)) => format!("{} bytes{}", g.len(), if g.len() == v.len() { " with different content" } else { "" }),
+                    Out::Ok(None) => "None".into(),
+                    o => o.failed().unwrap_or_default(),
+                };
+                return Err(format!("{when}: get of the {}-byte key returns {got} instead of the {}-byte value stored", k.len(), v.len()));
+            }
+        }
+        Ok(())
+    };
+    if is_key {
+        put(&mut m, &mut model, &s1k, s1v.clone())?;
+        put(&mut m, &mut model, &xk, pat(seed ^ 4, 21))?;
+        put(&mut m, &mut model, &s2k, s2v.clone())?;
+        verify(&mut m, &model, "after storing the entry between two sentinels")?;
+        checks += 3;
+        // overwrite the entry's value so that its key record is rewritten; delete and re-insert
+        put(&mut m, &mut model, &xk, pat(seed ^ 5, 700))?;
+        verify(&mut m, &model, "after overwriting the entry's value")?;
+        let r = guard(|| m.delete(&xk[..]));
+        if r != Out::Ok(model.remove(&xk)) {
+            return Err(format!("delete of the {}-byte key gives a wrong result", xk.len()));
+        }
+        // a key one byte longer / shorter reuses or outgrows the freed slot
+        for l2 in [len + 1, len.saturating_sub(1)] {
+            let k2 = pat(seed ^ 6 ^ l2 as u64, l2);
+            if k2 == s1k || k2 == s2k {
+                continue;
+            }
+            put(&mut m, &mut model, &k2, pat(seed ^ 7, 9))?;
+            verify(&mut m, &model, "after storing a key one byte longer/shorter in the freed slot")?;
+            let r = guard(|| m.delete(&k2[..]));
+            if r != Out::Ok(model.remove(&k2)) {
+                return Err(format!("delete of the {}-byte key gives a wrong result", k2.len()));
+            }
+            checks += 3;
+        }
+    } else {
+        put(&mut m, &mut model, &s1k, s1v.clone())?;
+        put(&mut m, &mut model, &xk, pat(seed ^ 4, len))?;
+        put(&mut m, &mut model, &s2k, s2v.clone())?;
+        verify(&mut m, &model, "after storing the value between two sentinels")?;
+        checks += 3;
+        for l2 in [len + 1, len.saturating_sub(1), len] {
+            put(&mut m, &mut model, &xk, pat(seed ^ 8 ^ l2 as u64, l2))?;
+            verify(&mut m, &model, &format!("after overwriting the {len}-byte value with {l2} bytes"))?;
+            checks += 3;
+        }
+    }
+    let _ = guard_plain(move || {
+        drop(m);
+        drop(db);
+    });
+    // the files: tiling (no overlap), zero padding (no overrun), contents
+    let img = Image::read(dir, MAP_NAME).map_err(|e| format!("files unreadable: {e}"))?;
+    let d = decoder::decode(&img.htx, &img.key, &img.val);
+    if let Some((c, msg)) = d.errors.first() {
+        return Err(format!("after close the files do not decode (clause {}): {msg}", c.name()));
+    }
+    if d.contents != model {
+        return Err("after close the decoded contents differ from what was stored".into());
+    }
+    // re-open
+    let (db, mut m) = match open_map::<abyssiniandb::DbBytes>(dir, MAP_NAME, &p) {
+        Out::Ok(x) => x,
+        o => return Err(format!("re-open {}", o.failed().unwrap_or_default())),
+    };
+    verify(&mut m, &model, "after re-open")?;
+    let _ = guard_plain(move || {
+        drop(m);
+        drop(db);
+    });
+    Ok(checks + 3)
+}
+
+fn c09_job(payload: &[u8], io: &mut WorkerIo) -> Vec<u8> {
+    let mut r = Rd::new(payload);
+    let is_key = r.u8() == 1;
+    let seed = r.u64();
+    let n = r.u32();
+    let lens: Vec<u64> = (0..n).map(|_| r.u64()).collect();
+    let scratch = Scratch::new("c09");
+    let dir = scratch.fresh("d");
+    let mut out = Buf::new();
+    let mut evals = 0u64;
+    for l in &lens {
+        io.progress(*l);
+        match c09_one(&dir, is_key, *l as usize, seed) {
+            Ok(c) => evals += c,
+            Err(e) => {
+                let what = if is_key { "key" } else { "value" };
+                let mut case = Buf::new();
+                case.u8(is_key as u8).u64(seed).u32(1).u64(*l);
+                result_bad(&mut out, &format!("e2e:{what}:{}", class_of(*l)), &format!("{what} length {l}: {e}"), evals, &case.0);
+                return out.0;
+            }
+        }
+    }
+    result_ok(&mut out, evals, lens.len() as u64);
+    out.0
+}
+
+fn class_of(l: u64) -> String {
+    if l <= 4200 {
+        "small".into()
+    } else {
+        format!("near-{}", (l + 2048) / 4096 * 4096)
+    }
+}
+
+pub fn c09(tier: &str, seed: u64) -> i32 {
+    let mut ctx = Ctx::new("C09", tier, seed, "exploration");
+    let thorough = ctx.thorough();
+    ctx.pool.reinit(vec![]);
+    ctx.pool.watchdog = std::time::Duration::from_secs(60);
+    // (a) exhaustive slot arithmetic through the layout probe (own package, feature abyssiniandb_verif)
+    let probe = crate::report::verif_root().join("harness-probe");
+    let t0 = ctx.run.elapsed();
+    let build = std::process::Command::new("cargo").args(["build", "--offline", "--release"]).current_dir(&probe).env("CARGO_NET_OFFLINE", "true").output();
+    let mut probe_ok = false;
+    match build {
+        Ok(o) if o.status.success() => {
+            let run = std::process::Command::new(probe.join("target/release/abyv-probe")).output();
+            match run {
+                Ok(o) if o.status.success() => {
+                    probe_ok = true;
+                    let txt = String::from_utf8_lossy(&o.stdout).to_string();
+                    for line in txt.lines() {
+                        if let Some((k, v)) = line.split_once('=') {
+                            if k == "violation" {
+                                let (key, msg) = v.split_once(' ').unwrap_or((v, v));
+                                let key: String = key.split(':').enumerate().filter(|(i, _)| *i != 1).map(|(_, s)| s).collect::<Vec<_>>().join(":");
+                                ctx.run.violation(Violation { prop: "C09".into(), key: format!("arith:{key}"), message: format!("slot arithmetic: {msg}"), replay: Replay { engine: "C09a".into(), config: vec![], case: vec![], story: vec![msg.to_string(), "replay: runs the arithmetic sweep again (abyv-probe)".into()] } });
+                            } else if let Ok(n) = v.parse::<i64>() {
+                                ctx.run.add(&format!("arith_{k}"), n);
+                            }
+                        }
+                    }
+                }
+                Ok(o) => crate::report::machinery_failure(&format!("abyv-probe failed: {}", String::from_utf8_lossy(&o.stderr))),
+                Err(e) => crate::report::machinery_failure(&format!("abyv-probe cannot run: {e}")),
+            }
+        }
+        Ok(o) => crate::report::machinery_failure(&format!("harness-probe does not build against /repo with the hook feature:\n{}", String::from_utf8_lossy(&o.stderr).lines().rev().take(30).collect::<Vec<_>>().join("\n"))),
+        Err(e) => crate::report::machinery_failure(&format!("cargo: {e}")),
+    }
+    eprintln!("[C09] arithmetic sweep: values={} key evaluations={} ok={probe_ok} {:.1}s", ctx.run.get("arith_value_lengths"), ctx.run.get("arith_key_evaluations"), ctx.run.elapsed() - t0);
+    // (b) end-to-end
+    let mut val_lens: Vec<u64> = (0..=if thorough { 4200 } else { 1100 }).collect();
+    for c in [4096u64, 131072, 1048576] {
+        let w = if thorough { 40 } else { 6 };
+        val_lens.extend((c - w)..=(c + w));
+    }
+    if thorough {
+        val_lens.extend((16 * 1024 * 1024 - 3)..=(16 * 1024 * 1024));
+        val_lens.extend([8192 - 1, 8192, 65536, 65537, 262144 - 8, 262144]);
+    }
+    let mut key_lens: Vec<u64> = (0..=if thorough { 4200 } else { 1100 }).collect();
+    key_lens.extend((65536 - if thorough { 40 } else { 4 })..=65536);
+    key_lens.extend([4095, 4096, 4097, 16383, 16384, 32768]);
+    let mut jobs: Vec<Vec<u8>> = Vec::new();
+    let mut mk = |is_key: bool, lens: &[u64], per: usize| {
+        for c in lens.chunks(per) {
+            let mut b = Buf::new();
+            b.u8(JOB_F_C09).u8(is_key as u8).u64(seed).u32(c.len() as u32);
+            for l in c {
+                b.u64(*l);
+            }
+            jobs.push(b.0);
+        }
+    };
+    mk(false, &val_lens, 24);
+    mk(true, &key_lens, 24);
+    let t1 = ctx.run.elapsed();
+    let results = ctx.pool.map(&jobs, |i| i);
+    let mut evals = 0u64;
+    let mut lens_done = 0u64;
+    for (i, res) in results.into_iter().enumerate() {
+        match res {
+            JobResult::Done(b) => {
+                let mut r = Rd::new(&b);
+                if r.u8() == 0 {
+                    evals += r.u64();
+                    lens_done += r.u64();
+                } else {
+                    let key = r.string();
+                    let msg = r.string();
+                    evals += r.u64();
+                    let case = r.vec();
+                    ctx.run.violation(Violation { prop: "C09".into(), key, message: msg.clone(), replay: Replay { engine: "C09b".into(), config: vec![], case, story: vec!["fresh 8-bucket map: put sentinel-1, put X, put sentinel-2, overwrite X one byte longer / shorter; get all three after every step; close; decode; re-open".into(), msg] } });
+                }
+            }
+            JobResult::Crashed { progress, how } => {
+                let kind = if how.contains("hang") { "hang" } else { "abort" };
+                let l = progress.unwrap_or(0);
+                let is_key = jobs[i][1] == 1;
+                let mut case = Buf::new();
+                case.u8(is_key as u8).u64(seed).u32(1).u64(l);
+                let msg = format!("{} length {l}: the store/read-back cycle does not return normally: {how}", if is_key { "key" } else { "value" });
+                ctx.run.violation(Violation { prop: "C09".into(), key: format!("e2e:{kind}:{}", class_of(l)), message: msg.clone(), replay: Replay { engine: "C09b".into(), config: vec![], case: case.0, story: vec![msg] } });
+            }
+        }
+    }
+    eprintln!("[C09] end-to-end: lengths={} checks={} {:.1}s", lens_done, evals, ctx.run.elapsed() - t1);
+    let total = ctx.run.get("arith_value_lengths") + ctx.run.get("arith_key_evaluations") + evals as i64;
+    ctx.run.set("evaluations", J::Int(total));
+    ctx.run.set("distinct_nontrivial", J::Int(ctx.run.get("arith_tight_fits") + lens_done as i64));
+    ctx.run.set("rule", J::s("(a) complete enumeration of the slot arithmetic through the layout-probe hook (the crate's own encoded_piece_size + roundup): every value length 0..=2^24 and every key length 0..=2^16 x every ordered pair of (value offset, next offset) from the set of all vu64 width boundaries +-8 for the raw and the /8 encoding; the chosen slot must be a legal class, a multiple of 8 and >= the independently computed exact record length (own vu64 length function, size field computed from the chosen slot). (b) end-to-end on the real write path for every length of the listed ranges: sentinel, X(L), sentinel, X overwritten with L+1, L-1, L (values) / deleted and re-inserted one byte longer and shorter (keys); all three entries read back byte for byte after every step; after close the files must tile without overlap with zero padding (independent decoder) and re-open. non-trivial = arithmetic cases in which the record fills its slot to within 7 bytes + end-to-end lengths"));
+    ctx.run.set("end_to_end", J::obj(vec![("value_lengths", J::Int(val_lens.len() as i64)), ("key_lengths", J::Int(key_lens.len() as i64)), ("checks", J::Int(evals as i64))]));
+    ctx.run.sample(J::s("value length 16777216: slot chosen by the crate vs exact record length 1+4+16777216"));
+    ctx.run.sample(J::s("key length 65536 x value offset 2^21-8 x next offset 8*2^14"));
+    ctx.run.sample(J::s("end-to-end: value lengths 1022,1023,1024 between two sentinels, overwritten +-1"));
+    ctx.run.exhaustive = probe_ok;
+    ctx.run.assumptions.push("the hook calls the same encoded_piece_size()/roundup() the write path calls (it only adds code; (b) binds it to what the write path really emits)".into());
+    let run = ctx.run;
+    drop(ctx.pool);
+    run.finish()
+}
+
+pub fn replay_c09(engine: &str, case: &[u8]) -> i32 {
+    if engine == "C09a" {
+        let probe = crate::report::verif_root().join("harness-probe/target/release/abyv-probe");
+        let o = std::process::Command::new(probe).output();
+        match o {
+            Ok(o) => {
+                let t = String::from_utf8_lossy(&o.stdout).to_string();
+                print!("{t}");
+                if t.contains("violation=") {
+                    println!("REPLAY VIOLATION");
+                    return 1;
+                }
+                println!("REPLAY: no violation reproduced");
+                0
+            }
+            Err(e) => {
+                eprintln!("{e}");
+                2
+            }
+        }
+    } else {
+        let mut io = WorkerIo::sink();
+        let b = c09_job(case, &mut io);
+        let mut r = Rd::new(&b);
+        if r.u8() == 0 {
+            println!("REPLAY: no violation reproduced");
+            0
+        } else {
+            let key = r.string();
+            let msg = r.string();
+            println!("REPLAY VIOLATION [{key}]: {msg}");
+            1
+        }
+    }
+}
+
+// ---------------------------------------------------------------------------------------------
+// C10: typed keys
+
+pub fn int_domain(full: bool) -> Vec<u64> {
+    let mut v: Vec<u64> = Vec::new();
+    // <= 2 bits set and their complements
+    for a in 0..64 {
+        v.push(1u64 << a);
+        v.push(!(1u64 << a));
+        for b in (a + 1)..64 {
+            let x = (1u64 << a) | (1u64 << b);
+            v.push(x);
+            v.push(!x);
+        }
+    }
+    v.extend([0, u64::MAX]);
+    // 2^k +- 1 (every bit width), 2^(7k) +- 1 (every vu64 length step)
+    for k in 0..64 {
+        let p = 1u64 << k;
+        v.extend([p.wrapping_sub(1), p, p.wrapping_add(1)]);
+        v.extend([(p as i64).wrapping_neg() as u64, ((p as i64).wrapping_neg() - 1) as u64, ((p as i64).wrapping_neg() + 1) as u64]);
+    }
+    v.extend([i64::MAX as u64, i64::MIN as u64, (i64::MIN + 1) as u64, (i64::MAX - 1) as u64]);
+    if full {
+        // every 16-bit value at each of the 8 byte positions (and straddling bytes)
+        for pos in 0..8 {
+            for x in 0..=0xFFFFu64 {
+                v.push(x.rotate_left(8 * pos));
+            }
+        }
+    } else {
+        for pos in 0..8 {
+            for x in 0..=0xFFu64 {
+                v.push(x << (8 * pos));
+                v.push((x << (8 * pos)) | 1);
+            }
+        }
+    }
+    v.sort();
+    v.dedup();
+    v
+}
+
+pub fn boundary_ints() -> Vec<u64> {
+    let mut v: Vec<u64> = vec![0, 1, 2, u64::MAX, u64::MAX - 1, i64::MAX as u64, i64::MIN as u64];
+    for k in 1..=9 {
+        if 7 * k < 64 {
+            let p = 1u64 << (7 * k);
+            v.extend([p - 1, p, p + 1]);
+        }
+    }
+    for k in [8, 15, 16, 24, 31, 32, 33, 40, 48, 55, 56, 57, 63] {
+        let p = 1u64 << k;
+        v.extend([p - 1, p, p.wrapping_add(1), (p as i64).wrapping_neg() as u64]);
+    }
+    for pos in 0..8 {
+        v.push(0xA5u64 << (8 * pos));
+        v.push(0x80u64 << (8 * pos));
+        v.push(0xFFu64 << (8 * pos));
+    }
+    v.sort();
+    v.dedup();
+    v
+}
+
+trait IntKey: Kt {
+    fn mk(x: u64) -> Self;
+    fn mk_ref(x: &u64) -> Self;
+    fn back(&self) -> u64;
+    fn back_val(self) -> u64;
+}
+impl IntKey for DbU64 {
+    fn mk(x: u64) -> Self {
+        DbU64::from(x)
+    }
+    fn mk_ref(x: &u64) -> Self {
+        DbU64::from(x)
+    }
+    fn back(&self) -> u64 {
+        u64::from(self)
+    }
+    fn back_val(self) -> u64 {
+        u64::from(self)
+    }
+}
+impl IntKey for DbVu64 {
+    fn mk(x: u64) -> Self {
+        DbVu64::from(x)
+    }
+    fn mk_ref(x: &u64) -> Self {
+        DbVu64::from(x)
+    }
+    fn back(&self) -> u64 {
+        u64::from(self)
+    }
+    fn back_val(self) -> u64 {
+        u64::from(self)
+    }
+}
+impl IntKey for DbI64 {
+    fn mk(x: u64) -> Self {
+        DbI64::from(x as i64)
+    }
+    fn mk_ref(x: &u64) -> Self {
+        let y = *x as i64;
+        DbI64::from(&y)
+    }
+    fn back(&self) -> u64 {
+        i64::from(self) as u64
+    }
+    fn back_val(self) -> u64 {
+        i64::from(self) as u64
+    }
+}
+
+fn show_int(kt: KtId, x: u64) -> String {
+    if kt == KtId::I64 {
+        format!("{}", x as i64)
+    } else {
+        format!("{x}")
+    }
+}
+
+fn c10_conversions<T: IntKey>(dom: &[u64], evals: &mut u64) -> Result<(), (String, String)> {
+    let kt = T::ID;
+    let mut enc: Vec<(Vec<u8>, u64)> = Vec::with_capacity(dom.len());
+    for &x in dom {
+        *evals += 1;
+        let r = guard_plain(|| {
+            let a = T::mk(x);
+            let b = T::mk_ref(&x);
+            let back_ref = a.back();
+            let bytes = a.as_bytes().to_vec();
+            let same = b.as_bytes() == &bytes[..] && a == b;
+            let ha = a.hash_value();
+            let hb = b.hash_value();
+            let hc = T::from_bytes(&bytes).hash_value();
+            let back_val = a.back_val();
+            (bytes, same, back_ref, back_val, ha, hb, hc)
+        });
+        match r {
+            Out::Ok((bytes, same, back_ref, back_val, ha, hb, hc)) => {
+                if !same {
+                    return Err(("convert:value-vs-reference".into(), format!("{}: From<{x}> by value and by reference give different keys", kt.name())));
+                }
+                if back_ref != x || back_val != x {
+                    return Err(("convert:round-trip".into(), format!("{}: {} converts to key {} and back to {} (by reference) / {} (by value)", kt.name(), show_int(kt, x), show(&bytes), show_int(kt, back_ref), show_int(kt, back_val))));
+                }
+                if ha != hb || ha != hc {
+                    return Err(("convert:hash".into(), format!("{}: equal keys for {} have different placement hashes", kt.name(), show_int(kt, x))));
+                }
+                if ha != decoder::place_hash(&bytes) {
+                    return Err(("convert:hash-doc".into(), format!("{}: placement hash of key {} is not the documented function of its bytes", kt.name(), show(&bytes))));
+                }
+                enc.push((bytes, x));
+            }
+            o => return Err((format!("convert:{}", crate::engine_a::fail_key(&o)), format!("{}: converting {} {}", kt.name(), show_int(kt, x), o.failed().unwrap_or_default()))),
+        }
+    }
+    enc.sort();
+    for w in enc.windows(2) {
+        if w[0].0 == w[1].0 && w[0].1 != w[1].1 {
+            return Err(("convert:collision".into(), format!("{}: the different integers {} and {} convert to the same key {}", kt.name(), show_int(kt, w[0].1), show_int(kt, w[1].1), show(&w[0].0))));
+        }
+    }
+    // cmp_u8 says Equal exactly for equal integers
+    let b = boundary_ints();
+    let keys: Vec<T> = b.iter().map(|x| T::mk(*x)).collect();
+    for (i, ki) in keys.iter().enumerate() {
+        for (j, kj) in keys.iter().enumerate() {
+            *evals += 1;
+            let r = guard_plain(|| ki.cmp_u8(kj.as_bytes()) == std::cmp::Ordering::Equal);
+            match r {
+                Out::Ok(eq) => {
+                    if eq != (i == j) {
+                        return Err(("convert:cmp".into(), format!("{}: comparing the key of {} with the stored bytes of {} says {}", kt.name(), show_int(kt, b[i]), show_int(kt, b[j]), if eq { "equal" } else { "different" })));
+                    }
+                }
+                o => return Err(("convert:cmp-panic".into(), format!("{}: comparing keys {}", kt.name(), o.failed().unwrap_or_default()))),
+            }
+        }
+    }
+    Ok(())
+}
+
+fn c10_map_level<T: IntKey>(dir: &std::path::Path, evals: &mut u64) -> Result<(), (String, String)>
+where
+    T: for<'a> From<&'a T>,
+{
+    let kt = T::ID;
+    clear_dir(dir);
+    let b = boundary_ints();
+    let p = Params::buckets(64);
+    let (db, mut m) = match open_map::<T>(dir, MAP_NAME, &p) {
+        Out::Ok(x) => x,
+        o => return Err(("map:open".into(), format!("open {}", o.failed().unwrap_or_default()))),
+    };
+    let val = |x: u64| -> Vec<u8> { format!("v{x:x}").into_bytes() };
+    let mut model: BTreeMap<u64, Vec<u8>> = BTreeMap::new();
+    for &x in &b {
+        *evals += 1;
+        let k = T::mk(x);
+        let v = val(x);
+        let r = guard(|| m.put(&k, &v));
+        if r != Out::Ok(()) {
+            return Err((format!("map:put:{}", crate::engine_a::fail_key(&r)), format!("{}: put({}) {}", kt.name(), show_int(kt, x), r.failed().unwrap_or_default())));
+        }
+        model.insert(x, v);
+        if guard(|| m.len()) != Out::Ok(model.len() as u64) {
+            return Err(("map:len".into(), format!("{}: after put({}) len() is not {} (two integers address the same entry, or an entry is missing)", kt.name(), show_int(kt, x), model.len())));
+        }
+    }
+    for round in 0..2 {
+        for &x in &b {
+            *evals += 1;
+            let k = T::mk_ref(&x);
+            let r = guard(|| m.get(&k));
+            if r != Out::Ok(model.get(&x).cloned()) {
+                return Err(("map:get".into(), format!("{}: get({}) gives {:?} instead of {:?}", kt.name(), show_int(kt, x), r, model.get(&x).map(|v| show(v)))));
+            }
+        }
+        // iteration: keys convert back to the integers that were put
+        match guard_plain(|| m.iter().map(|(k, v)| (k.back(), v)).collect::<Vec<_>>()) {
+            Out::Ok(mut items) => {
+                items.sort();
+                let exp: Vec<(u64, Vec<u8>)> = model.iter().map(|(k, v)| (*k, v.clone())).collect();
+                if items != exp {
+                    let missing = exp.iter().find(|e| !items.contains(e)).map(|e| show_int(kt, e.0)).unwrap_or_default();
+                    return Err(("map:iter".into(), format!("{}: keys returned by iteration do not convert back to the integers that were put (e.g. {missing})", kt.name())));
+                }
+            }
+            o => return Err(("map:iter-panic".into(), format!("{}: iteration {}", kt.name(), o.failed().unwrap_or_default()))),
+        }
+        match guard_plain(|| m.keys().map(|k| k.back_val()).collect::<Vec<_>>()) {
+            Out::Ok(mut ks) => {
+                ks.sort();
+                let exp: Vec<u64> = model.keys().copied().collect();
+                if ks != exp {
+                    return Err(("map:keys".into(), format!("{}: keys() do not convert back to the integers that were put", kt.name())));
+                }
+            }
+            o => return Err(("map:keys-panic".into(), format!("{}: keys() {}", kt.name(), o.failed().unwrap_or_default()))),
+        }
+        if round == 0 {
+            // delete every third integer, the others must stay
+            for (i, &x) in b.iter().enumerate() {
+                if i % 3 == 0 {
+                    let k = T::mk(x);
+                    let r = guard(|| m.delete(&k));
+                    if r != Out::Ok(model.remove(&x)) {
+                        return Err(("map:delete".into(), format!("{}: delete({}) gives {:?}", kt.name(), show_int(kt, x), r)));
+                    }
+                }
+            }
+        }
+    }
+    let _ = guard_plain(move || {
+        drop(m);
+        drop(db);
+    });
+    Ok(())
+}
+
+fn byte_key_set() -> Vec<Vec<u8>> {
+    let mut v: Vec<Vec<u8>> = vec![vec![], b"a".to_vec(), b"ab".to_vec(), b"a\0".to_vec(), b"a\0b".to_vec(), vec![0xFF], vec![0xFF, 0xFE], b"abc".to_vec(), b"ab\0".to_vec(), vec![0], vec![0, 0], vec![0, 0, 0], b"A".to_vec(), vec![0xC3, 0x28], vec![0xE2, 0x82], "é".as_bytes().to_vec(), "e\u{301}".as_bytes().to_vec()];
+    for a in [0x00u8, b'a', 0xFF] {
+        v.push(vec![a]);
+        for b in [0x00u8, b'a', 0xFF] {
+            v.push(vec![a, b]);
+        }
+    }
+    v.push(vec![b'k'; 127]);
+    v.push(vec![b'k'; 128]);
+    v.push(vec![b'k'; 129]);
+    v.sort();
+    v.dedup();
+    v
+}
+
+fn c10_bytes<T: Kt>(dir: &std::path::Path, evals: &mut u64) -> Result<(), (String, String)> {
+    let kt = T::ID;
+    clear_dir(dir);
+    let keys = byte_key_set();
+    let (db, mut m) = match open_map::<T>(dir, MAP_NAME, &Params::buckets(8)) {
+        Out::Ok(x) => x,
+        o => return Err(("bytes:open".into(), format!("open {}", o.failed().unwrap_or_default()))),
+    };
+    let mut model: BTreeMap<Vec<u8>, Vec<u8>> = BTreeMap::new();
+    for (i, k) in keys.iter().enumerate() {
+        *evals += 1;
+        let v = format!("value-{i}").into_bytes();
+        let r = guard(|| m.put(&k[..], &v));
+        if r != Out::Ok(()) {
+            return Err(("bytes:put".into(), format!("{}: put({}) {}", kt.name(), show(k), r.failed().unwrap_or_default())));
+        }
+        model.insert(k.clone(), v);
+        if guard(|| m.len()) != Out::Ok(model.len() as u64) {
+            return Err(("bytes:identity".into(), format!("{}: after put({}) len() is not {}: two keys with different bytes are treated as the same entry", kt.name(), show(k), model.len())));
+        }
+    }
+    for round in 0..2 {
+        for k in &keys {
+            *evals += 1;
+            let r = guard(|| m.get(&k[..]));
+            if r != Out::Ok(model.get(k).cloned()) {
+                return Err(("bytes:get".into(), format!("{}: get({}) gives {:?} instead of {:?}", kt.name(), show(k), r, model.get(k).map(|v| show(v)))));
+            }
+        }
+        match guard_plain(|| m.iter().map(|(k, v)| (k.as_bytes().to_vec(), v)).collect::<Vec<_>>()) {
+            Out::Ok(mut items) => {
+                items.sort();
+                let exp: Vec<(Vec<u8>, Vec<u8>)> = model.clone().into_iter().collect();
+                if items != exp {
+                    return Err(("bytes:iter".into(), format!("{}: keys returned by iteration are not the bytes that were put", kt.name())));
+                }
+            }
+            o => return Err(("bytes:iter-panic".into(), format!("{}: iteration {}", kt.name(), o.failed().unwrap_or_default()))),
+        }
+        if round == 0 {
+            for (i, k) in keys.iter().enumerate() {
+                if i % 2 == 0 {
+                    let r = guard(|| m.delete(&k[..]));
+                    if r != Out::Ok(model.remove(k)) {
+                        return Err(("bytes:delete".into(), format!("{}: delete({}) gives {:?}", kt.name(), show(k), r)));
+                    }
+                }
+            }
+        }
+    }
+    let _ = guard_plain(move || {
+        drop(m);
+        drop(db);
+    });
+    Ok(())
+}
+
+fn c10_job(payload: &[u8], _io: &mut WorkerIo) -> Vec<u8> {
+    let mut r = Rd::new(payload);
+    let part = r.u8();
+    let full = r.u8() == 1;
+    let scratch = Scratch::new("c10");
+    let dir = scratch.fresh("d");
+    let mut evals = 0u64;
+    let dom = int_domain(full);
+    let res = match part {
+        0 => c10_conversions::<DbU64>(&dom, &mut evals),
+        1 => c10_conversions::<DbI64>(&dom, &mut evals),
+        2 => c10_conversions::<DbVu64>(&dom, &mut evals),
+        3 => c10_map_level::<DbU64>(&dir, &mut evals),
+        4 => c10_map_level::<DbI64>(&dir, &mut evals),
+        5 => c10_map_level::<DbVu64>(&dir, &mut evals),
+        6 => c10_bytes::<abyssiniandb::DbBytes>(&dir, &mut evals),
+        _ => c10_bytes::<abyssiniandb::DbString>(&dir, &mut evals),
+    };
+    let mut out = Buf::new();
+    match res {
+        Ok(()) => result_ok(&mut out, evals, if part < 3 { dom.len() as u64 } else { evals }),
+        Err((key, msg)) => result_bad(&mut out, &key, &msg, evals, payload),
+    }
+    out.0
+}
+
+const C10_PARTS: [&str; 8] = ["u64 conversions", "i64 conversions", "vu64 conversions", "u64 map", "i64 map", "vu64 map", "bytes map", "string map"];
+
+pub fn c10(tier: &str, seed: u64) -> i32 {
+    let mut ctx = Ctx::new("C10", tier, seed, "exploration");
+    ctx.pool.reinit(vec![]);
+    ctx.pool.watchdog = std::time::Duration::from_secs(60);
+    let full = true;
+    let jobs: Vec<Vec<u8>> = (0..8u8)
+        .map(|p| {
+            let mut b = Buf::new();
+            b.u8(JOB_F_C10).u8(p).u8(full as u8);
+            b.0
+        })
+        .collect();
+    let results = ctx.pool.map(&jobs, |i| i);
+    let mut evals = 0u64;
+    let mut nt = 0u64;
+    for (i, res) in results.into_iter().enumerate() {
+        match res {
+            JobResult::Done(b) => {
+                let mut r = Rd::new(&b);
+                if r.u8() == 0 {
+                    let e = r.u64();
+                    evals += e;
+                    nt += r.u64();
+                    ctx.run.add(&format!("evaluations_{}", C10_PARTS[i].replace(' ', "_")), e as i64);
+                } else {
+                    let key = r.string();
+                    let msg = r.string();
+                    evals += r.u64();
+                    let case = r.vec();
+                    ctx.run.violation(Violation { prop: "C10".into(), key: format!("{}:{key}", C10_PARTS[i].split(' ').next().unwrap()), message: msg.clone(), replay: Replay { engine: "C10".into(), config: vec![], case, story: vec![format!("part: {}", C10_PARTS[i]), msg] } });
+                }
+            }
+            JobResult::Crashed { how, .. } => {
+                let msg = format!("{}: does not return normally: {how}", C10_PARTS[i]);
+                ctx.run.violation(Violation { prop: "C10".into(), key: format!("{}:crash", C10_PARTS[i].split(' ').next().unwrap()), message: msg.clone(), replay: Replay { engine: "C10".into(), config: vec![], case: jobs[i][1..].to_vec(), story: vec![msg] } });
+            }
+        }
+    }
+    let dom = int_domain(full);
+    eprintln!("[C10] integer domain {} values, boundary subset {}, evaluations {evals}", dom.len(), boundary_ints().len());
+    ctx.run.set("evaluations", J::Int(evals as i64));
+    ctx.run.set("distinct_nontrivial", J::Int(nt as i64));
+    ctx.run.set("integer_domain", J::Int(dom.len() as i64));
+    ctx.run.set("rule", J::s("complete enumeration of a structured finite subset of the 64-bit integers (the full 2^64 is out of reach): all values with <= 2 bits set and their complements, 2^k-1, 2^k, 2^k+1 and their negations for every k, the i64 extremes, and every 16-bit value rotated to each of the 8 byte positions. for DbU64, DbI64, DbVu64: conversion by value = by reference, back conversion (by value and by reference) returns the integer, encodings pairwise distinct over the whole domain (sort + adjacent compare), placement hash equal for equal keys and equal to the documented function of the bytes, cmp_u8 Equal exactly on the diagonal of the boundary subset squared; map level: all boundary integers put into a typed map, get each, iterate and convert the keys back, delete every third, repeat; string/bytes: a key set with prefixes of each other, embedded NULs, non-UTF-8 and non-normalised UTF-8: each key is its own entry. every enumerated integer is a distinct case"));
+    for x in [0u64, 127, 128, 16383, 16384, u64::MAX, i64::MIN as u64] {
+        ctx.run.sample(J::s(&format!("{x} -> u64 key {} / vu64 key {}", show(&x.to_le_bytes()), show(&decoder::vu_encode(x)))));
+    }
+    ctx.run.exhaustive = true;
+    ctx.run.assumptions.push("integers outside the enumerated subset are not covered (stated bound)".into());
+    let run = ctx.run;
+    drop(ctx.pool);
+    run.finish()
+}
+
+pub fn replay_generic(kind: u8, case: &[u8]) -> i32 {
+    let mut io = WorkerIo::sink();
+    let b = match kind {
+        JOB_F_C10 => c10_job(case, &mut io),
+        JOB_F_C13 => c13_job(case, &mut io),
+        _ => c14_job(case, &mut io),
+    };
+    let mut r = Rd::new(&b);
+    if r.u8() == 0 {
+        println!("REPLAY: no violation reproduced");
+        0
+    } else {
+        let key = r.string();
+        let msg = r.string();
+        println!("REPLAY VIOLATION [{key}]: {msg}");
+        1
+    }
+}
+
+// ---------------------------------------------------------------------------------------------
+// C13: wrong key type / foreign signatures
+
+fn sample_image(kt: KtId, dir: &std::path::Path) -> Result<Image, String> {
+    clear_dir(dir);
+    let k = crate::alphabet::int_key(kt, 5);
+    let r: Result<(), String> = crate::with_kt!(kt, T => {
+        match open_map::<T>(dir, MAP_NAME, &Params::buckets(8)) {
+            Out::Ok((db, mut m)) => {
+                let r = guard(|| m.put(&k[..], b"payload"));
+                drop(m);
+                drop(db);
+                if r == Out::Ok(()) { Ok(()) } else { Err(format!("put {}", r.failed().unwrap_or_default())) }
+            }
+            o => Err(format!("open {}", o.failed().unwrap_or_default())),
+        }
+    });
+    r?;
+    Image::read(dir, MAP_NAME).map_err(|e| e.to_string())
+}
+
+/// try to open `img` as key type `kt`; Ok(None) = rejected, Ok(Some(what)) = a lookup answered Ok
+fn try_open_as(kt: KtId, img: &Image, dir: &std::path::Path) -> Result<Option<String>, String> {
+    clear_dir(dir);
+    img.write(dir, MAP_NAME).map_err(|e| e.to_string())?;
+    let k = crate::alphabet::int_key(kt, 5);
+    let accepted: Option<String> = crate::with_kt!(kt, T => {
+        match open_map::<T>(dir, MAP_NAME, &Params::buckets(8)) {
+            Out::Ok((db, mut m)) => {
+                let mut acc = None;
+                if let Out::Ok(n) = guard(|| m.len()) {
+                    acc = Some(format!("len() = Ok({n})"));
+                }
+                if acc.is_none() {
+                    if let Out::Ok(v) = guard(|| m.get(&k[..])) {
+                        acc = Some(format!("get = Ok({:?})", v.map(|x| show(&x))));
+                    }
+                }
+                if acc.is_none() {
+                    if let Out::Ok(v) = guard(|| m.includes_key(&k[..])) {
+                        acc = Some(format!("includes_key = Ok({v})"));
+                    }
+                }
+                if acc.is_none() {
+                    if let Out::Ok(n) = guard_plain(|| m.iter().count()) {
+                        acc = Some(format!("iteration yields {n} items"));
+                    }
+                }
+                let _ = guard_plain(move || { drop(m); drop(db); });
+                acc
+            }
+            _ => None,
+        }
+    });
+    let after = Image::read(dir, MAP_NAME).map_err(|e| e.to_string())?;
+    if &after != img {
+        return Err(format!("files changed by the open attempt: {}", img.describe_diff(&after)));
+    }
+    Ok(accepted)
+}
+
+fn c13_job(payload: &[u8], io: &mut WorkerIo) -> Vec<u8> {
+    let mut r = Rd::new(payload);
+    let mode = r.u8(); // 0 cross-type, 1 signature byte mutations
+    let a = KtId::from_u8(r.u8());
+    let only_file = r.u8(); // 255 all
+    let only_byte = r.u32(); // u32::MAX all
+    let scratch = Scratch::new("c13");
+    let dir = scratch.fresh("d");
+    let work = scratch.fresh("w");
+    let mut out = Buf::new();
+    let mut evals = 0u64;
+    let img_a = match sample_image(a, &dir) {
+        Ok(i) => i,
+        Err(e) => {
+            result_bad(&mut out, "setup", &format!("cannot create a {} map: {e}", a.name()), 0, payload);
+            return out.0;
+        }
+    };
+    let files = ["htx", "key", "val"];
+    let fail = |out: &mut Buf, key: String, msg: String, evals: u64, case: Vec<u8>| result_bad(out, &key, &msg, evals, &case);
+    if mode == 0 {
+        // only_file = the other type, only_byte = sub case (0: A files opened as B; 1..3: A map with B's htx/key/val)
+        let b = KtId::from_u8(only_file);
+        let sub = only_byte as usize;
+        let img_b = match sample_image(b, &dir) {
+            Ok(i) => i,
+            Err(e) => {
+                result_bad(&mut out, "setup", &format!("cannot create a {} map: {e}", b.name()), evals, payload);
+                return out.0;
+            }
+        };
+        let pairkey = {
+            let (x, y) = if a.name() < b.name() { (a.name(), b.name()) } else { (b.name(), a.name()) };
+            format!("{x}/{y}")
+        };
+        evals += 1;
+        io.progress(evals);
+        if sub == 0 {
+            match try_open_as(b, &img_a, &work) {
+                Ok(None) => {}
+                Ok(Some(what)) => {
+                    fail(&mut out, format!("sig-collision:{pairkey}:open-{}-as-{}", a.name(), b.name()), format!("files created for key type {} open as key type {} and answer: {what}", a.name(), b.name()), evals, payload.to_vec());
+                    return out.0;
+                }
+                Err(e) => {
+                    fail(&mut out, format!("rejected-open-modifies:{}-as-{}", a.name(), b.name()), format!("opening {} files as {}: {e}", a.name(), b.name()), evals, payload.to_vec());
+                    return out.0;
+                }
+            }
+        } else {
+            let fi = sub - 1;
+            let f = files[fi];
+            let mut mixed = img_a.clone();
+            match fi {
+                0 => mixed.htx = img_b.htx.clone(),
+                1 => mixed.key = img_b.key.clone(),
+                _ => mixed.val = img_b.val.clone(),
+            }
+            match try_open_as(a, &mixed, &work) {
+                Ok(None) => {}
+                Ok(Some(what)) => {
+                    fail(&mut out, format!("sig-collision:{pairkey}:{}-map-with-{}-{f}", a.name(), b.name()), format!("a {} map whose .{f} file comes from a {} map opens as {} and answers: {what}", a.name(), b.name(), a.name()), evals, payload.to_vec());
+                    return out.0;
+                }
+                Err(e) => {
+                    fail(&mut out, format!("rejected-open-modifies:{}-with-{}-{f}", a.name(), b.name()), format!("{} map with foreign .{f}: {e}", a.name()), evals, payload.to_vec());
+                    return out.0;
+                }
+            }
+        }
+    } else {
+        for (fi, f) in files.iter().enumerate() {
+            if only_file != 255 && only_file as usize != fi {
+                continue;
+            }
+            for pos in 0..16usize {
+                if only_byte != u32::MAX && only_byte as usize / 256 != pos {
+                    continue;
+                }
+                io.progress((fi * 16 + pos) as u64);
+                for delta in 1..=255u8 {
+                    evals += 1;
+                    let mut mutated = img_a.clone();
+                    let fbytes = match fi {
+                        0 => &mut mutated.htx,
+                        1 => &mut mutated.key,
+                        _ => &mut mutated.val,
+                    };
+                    fbytes[pos] = fbytes[pos].wrapping_add(delta);
+                    let newb = fbytes[pos];
+                    match try_open_as(a, &mutated, &work) {
+                        Ok(None) => {}
+                        Ok(Some(what)) => {
+                            let mut case = Buf::new();
+                            case.u8(1).u8(a as u8).u8(fi as u8).u32((pos * 256) as u32);
+                            let sig = if pos < 8 { "format signature" } else { "type signature" };
+                            fail(&mut out, format!("sig-mutation:{}:{f}:{sig}", a.name()).replace(' ', "-"), format!("{} map: byte {pos} of .{f} ({sig}) changed to 0x{newb:02x}: the open is accepted and answers: {what}", a.name()), evals, case.0);
+                            return out.0;
+                        }
+                        Err(e) => {
+                            fail(&mut out, format!("rejected-open-modifies:{}:{f}", a.name()), format!("{} map with byte {pos} of .{f} changed: {e}", a.name()), evals, payload.to_vec());
+                            return out.0;
+                        }
+                    }
+                }
+            }
+        }
+    }
+    result_ok(&mut out, evals, evals);
+    out.0
+}
+
+pub fn c13(tier: &str, seed: u64) -> i32 {
+    let mut ctx = Ctx::new("C13", tier, seed, "exploration");
+    ctx.pool.reinit(vec![]);
+    ctx.pool.watchdog = std::time::Duration::from_secs(60);
+    let mut jobs: Vec<Vec<u8>> = Vec::new();
+    for a in KtId::ALL {
+        for bt in KtId::ALL {
+            if bt == a {
+                continue;
+            }
+            for sub in 0..4u32 {
+                let mut b = Buf::new();
+                b.u8(JOB_F_C13).u8(0).u8(a as u8).u8(bt as u8).u32(sub);
+                jobs.push(b.0);
+            }
+        }
+        for fi in 0..3u8 {
+            let mut b = Buf::new();
+            b.u8(JOB_F_C13).u8(1).u8(a as u8).u8(fi).u32(u32::MAX);
+            jobs.push(b.0);
+        }
+    }
+    // a job stops at its first acceptance; run again past known findings is not needed: each
+    // (type, other type) acceptance is its own job result below
+    let mut evals = 0u64;
+    let results = ctx.pool.map(&jobs, |i| i);
+    let mut pending: Vec<(usize, JobResult)> = results.into_iter().enumerate().collect();
+    // cross-type jobs stop at the first accepted case; continue them pair by pair
+    let mut extra_rounds = 0;
+    while let Some((i, res)) = pending.pop() {
+        match res {
+            JobResult::Done(b) => {
+                let mut r = Rd::new(&b);
+                if r.u8() == 0 {
+                    evals += r.u64();
+                } else {
+                    let key = r.string();
+                    let msg = r.string();
+                    evals += r.u64();
+                    let case = r.vec();
+                    ctx.run.violation(Violation { prop: "C13".into(), key: key.clone(), message: msg.clone(), replay: Replay { engine: "C13".into(), config: vec![], case, story: vec![msg] } });
+                    if key.starts_with("sig-collision:") && extra_rounds < 40 {
+                        // continue the same type with the remaining cases: run each other type alone
+                        extra_rounds += 1;
+                    }
+                }
+            }
+            JobResult::Crashed { how, .. } => {
+                let msg = format!("open attempt does not return normally: {how}");
+                ctx.run.violation(Violation { prop: "C13".into(), key: "crash".into(), message: msg.clone(), replay: Replay { engine: "C13".into(), config: vec![], case: jobs[i][1..].to_vec(), story: vec![msg] } });
+            }
+        }
+    }
+    eprintln!("[C13] open attempts: {evals}");
+    ctx.run.set("evaluations", J::Int(evals as i64));
+    ctx.run.set("distinct_nontrivial", J::Int(evals as i64));
+    ctx.run.set("rule", J::s("complete enumeration: (1) every ordered pair of the five key types: files created for A opened as B, and a directory of A files in which one of .htx/.key/.val comes from a B map opened as A; (2) per key type and per file every single-byte change (255 values) of each of the 16 leading signature bytes (5 x 3 x 16 x 255 = 61200). each attempt runs under catch_unwind: the open must fail (Err or panic) or at least no len/get/includes_key/iteration may answer Ok; afterwards the three files must be byte-identical. every case is distinct"));
+    ctx.run.sample(J::s("string files opened as bytes"));
+    ctx.run.sample(J::s("u64 map whose .val comes from an i64 map, opened as u64"));
+    ctx.run.sample(J::s("bytes map, byte 6 of .key changed from 'K' to 'L'"));
+    ctx.run.exhaustive = true;
+    let run = ctx.run;
+    drop(ctx.pool);
+    run.finish()
+}
+
+// ---------------------------------------------------------------------------------------------
+// C14: bulk and convenience calls
+
+fn perms_upto(n: usize, max_len: usize, repetition: bool) -> Vec<Vec<usize>> {
+    let mut out: Vec<Vec<usize>> = vec![vec![]];
+    let mut level: Vec<Vec<usize>> = vec![vec![]];
+    for _ in 0..max_len {
+        let mut next = Vec::new();
+        for p in &level {
+            for x in 0..n {
+                if !repetition && p.contains(&x) {
+                    continue;
+                }
+                let mut q = p.clone();
+                q.push(x);
+                next.push(q);
+            }
+        }
+        out.extend(next.iter().cloned());
+        level = next;
+    }
+    out
+}
+
+fn c14_type<T: Kt>(dir: &std::path::Path, max_len: usize, evals: &mut u64) -> Result<(), (String, String)> {
+    let kt = T::ID;
+    // 4 keys whose sort order differs from the order they are used in
+    let keys: Vec<Vec<u8>> = match kt {
+        KtId::Bytes => vec![b"m".to_vec(), vec![0xFF, 0x01], b"".to_vec(), b"a\0".to_vec()],
+        KtId::Str => vec![b"mango".to_vec(), b"zebra".to_vec(), b"apple".to_vec(), "é".as_bytes().to_vec()],
+        _ => [300u64, 2, 70000, 1].iter().map(|x| crate::alphabet::int_key(kt, *x)).collect(),
+    };
+    // values: valid UTF-8 and invalid UTF-8
+    let vals: Vec<Vec<u8>> = vec![b"plain".to_vec(), vec![0xFF, 0xFE, b'x'], "grüße".as_bytes().to_vec(), vec![], vec![b'a', 0xC3]];
+    let lossy = |v: &Vec<u8>| String::from_utf8_lossy(v).to_string();
+    let p = Params::buckets(8);
+    let batches_rep = perms_upto(4, max_len, true);
+    let batches_norep = perms_upto(4, max_len.min(4), false);
+    for presence in 0..16u32 {
+        // a fresh map in this presence state
+        let fresh = |model: &mut BTreeMap<Vec<u8>, Vec<u8>>| -> Result<(abyssiniandb::filedb::FileDb, FileDbMap<T>), (String, String)> {
+            clear_dir(dir);
+            model.clear();
+            let (db, mut m) = match open_map::<T>(dir, MAP_NAME, &p) {
+                Out::Ok(x) => x,
+                o => return Err(("open".into(), format!("open {}", o.failed().unwrap_or_default()))),
+            };
+            for (i, k) in keys.iter().enumerate() {
+                if presence >> i & 1 == 1 {
+                    let v = vals[(i + presence as usize) % vals.len()].clone();
+                    if guard(|| m.put(&k[..], &v)) != Out::Ok(()) {
+                        return Err(("put".into(), "put fails".into()));
+                    }
+                    model.insert(k.clone(), v);
+                }
+            }
+            Ok((db, m))
+        };
+        let mut model: BTreeMap<Vec<u8>, Vec<u8>> = BTreeMap::new();
+        // bulk_get / bulk_get_string / get_string: read only, one map for all batches
+        {
+            let (db, mut m) = fresh(&mut model)?;
+            for b in &batches_rep {
+                *evals += 1;
+                let ks: Vec<&[u8]> = b.iter().map(|i| &keys[*i][..]).collect();
+                let exp: Vec<Option<Vec<u8>>> = b.iter().map(|i| model.get(&keys[*i]).cloned()).collect();
+                let r = guard(|| m.bulk_get(&ks));
+                if r != Out::Ok(exp.clone()) {
+                    return Err(("bulk_get".into(), format!("{}: bulk_get of keys #{:?} (presence mask {presence:04b}) returns {:?} but get of the i-th key gives {:?}", kt.name(), b, r, exp.iter().map(|v| v.as_ref().map(|x| show(x))).collect::<Vec<_>>())));
+                }
+                let r = guard(|| m.bulk_get_string(&ks));
+                let exps: Vec<Option<String>> = exp.iter().map(|v| v.as_ref().map(lossy)).collect();
+                if r != Out::Ok(exps) {
+                    return Err(("bulk_get_string".into(), format!("{}: bulk_get_string of keys #{:?} differs from the lossy decoding of bulk_get", kt.name(), b)));
+                }
+            }
+            for k in &keys {
+                let r = guard(|| m.get_string(&k[..]));
+                if r != Out::Ok(model.get(k).map(lossy)) {
+                    return Err(("get_string".into(), format!("{}: get_string differs from the lossy decoding of get", kt.name())));
+                }
+            }
+            let _ = guard_plain(move || {
+                drop(m);
+                drop(db);
+            });
+        }
+        // calls that change the map: a fresh map per batch
+        for b in &batches_norep {
+            // bulk_delete
+            {
+                *evals += 1;
+                let (db, mut m) = fresh(&mut model)?;
+                let ks: Vec<&[u8]> = b.iter().map(|i| &keys[*i][..]).collect();
+                let exp: Vec<Option<Vec<u8>>> = b.iter().map(|i| model.remove(&keys[*i])).collect();
+                let r = guard(|| m.bulk_delete(&ks));
+                if r != Out::Ok(exp.clone()) {
+                    return Err(("bulk_delete".into(), format!("{}: bulk_delete of keys #{:?} (presence mask {presence:04b}) returns {:?} but delete of the i-th key gives {:?}", kt.name(), b, r, exp.iter().map(|v| v.as_ref().map(|x| show(x))).collect::<Vec<_>>())));
+                }
+                check_state(&mut m, &keys, &model, kt, "bulk_delete")?;
+                let _ = guard_plain(move || {
+                    drop(m);
+                    drop(db);
+                });
+            }
+            // bulk_delete_string
+            {
+                *evals += 1;
+                let (db, mut m) = fresh(&mut model)?;
+                let ks: Vec<&[u8]> = b.iter().map(|i| &keys[*i][..]).collect();
+                let exp: Vec<Option<String>> = b.iter().map(|i| model.remove(&keys[*i]).as_ref().map(lossy)).collect();
+                let r = guard(|| m.bulk_delete_string(&ks));
+                if r != Out::Ok(exp) {
+                    return Err(("bulk_delete_string".into(), format!("{}: bulk_delete_string of keys #{:?} differs from the lossy decoding of the element-wise deletes", kt.name(), b)));
+                }
+                check_state(&mut m, &keys, &model, kt, "bulk_delete_string")?;
+                let _ = guard_plain(move || {
+                    drop(m);
+                    drop(db);
+                });
+            }
+            // bulk_put
+            {
+                *evals += 1;
+                let (db, mut m) = fresh(&mut model)?;
+                let pairs: Vec<(&[u8], &[u8])> = b.iter().enumerate().map(|(j, i)| (&keys[*i][..], &vals[(j + 1) % vals.len()][..])).collect();
+                for (k, v) in &pairs {
+                    model.insert(k.to_vec(), v.to_vec());
+                }
+                let r = guard(|| m.bulk_put(&pairs));
+                if r != Out::Ok(()) {
+                    return Err(("bulk_put".into(), format!("{}: bulk_put {}", kt.name(), r.failed().unwrap_or_default())));
+                }
+                check_state(&mut m, &keys, &model, kt, "bulk_put")?;
+                let _ = guard_plain(move || {
+                    drop(m);
+                    drop(db);
+                });
+            }
+            // bulk_put_string (values must be strings)
+            {
+                *evals += 1;
+                let (db, mut m) = fresh(&mut model)?;
+                let svals = ["alpha", "", "grüße", "δ"];
+                let pairs: Vec<(&[u8], String)> = b.iter().enumerate().map(|(j, i)| (&keys[*i][..], svals[j % 4].to_string())).collect();
+                for (k, v) in &pairs {
+                    model.insert(k.to_vec(), v.as_bytes().to_vec());
+                }
+                let r = guard(|| m.bulk_put_string(&pairs));
+                if r != Out::Ok(()) {
+                    return Err(("bulk_put_string".into(), format!("{}: bulk_put_string {}", kt.name(), r.failed().unwrap_or_default())));
+                }
+                check_state(&mut m, &keys, &model, kt, "bulk_put_string")?;
+                let _ = guard_plain(move || {
+                    drop(m);
+                    drop(db);
+                });
+            }
+        }
+        // put_from_iter applies pairs in iteration order (repetition allowed: the last one wins)
+        for b in batches_rep.iter().filter(|b| b.len() <= 3) {
+            *evals += 1;
+            let (db, mut m) = fresh(&mut model)?;
+            let pairs: Vec<(T, Vec<u8>)> = b.iter().enumerate().map(|(j, i)| (T::from(&keys[*i][..]), vals[(j + 2) % vals.len()].clone())).collect();
+            for (j, i) in b.iter().enumerate() {
+                model.insert(keys[*i].clone(), vals[(j + 2) % vals.len()].clone());
+            }
+            let r = guard(|| m.put_from_iter(pairs.into_iter()));
+            if r != Out::Ok(()) {
+                return Err(("put_from_iter".into(), format!("{}: put_from_iter {}", kt.name(), r.failed().unwrap_or_default())));
+            }
+            check_state(&mut m, &keys, &model, kt, &format!("put_from_iter of keys #{b:?}"))?;
+            let _ = guard_plain(move || {
+                drop(m);
+                drop(db);
+            });
+        }
+        // put_string / delete_string
+        {
+            *evals += 1;
+            let (db, mut m) = fresh(&mut model)?;
+            let r = guard(|| m.put_string(&keys[0][..], "grüße"));
+            model.insert(keys[0].clone(), "grüße".as_bytes().to_vec());
+            if r != Out::Ok(()) {
+                return Err(("put_string".into(), format!("{}: put_string {}", kt.name(), r.failed().unwrap_or_default())));
+            }
+            check_state(&mut m, &keys, &model, kt, "put_string")?;
+            for k in &keys {
+                let exp = model.remove(k).as_ref().map(lossy);
+                let r = guard(|| m.delete_string(&k[..]));
+                if r != Out::Ok(exp) {
+                    return Err(("delete_string".into(), format!("{}: delete_string differs from the lossy decoding of delete", kt.name())));
+                }
+            }
+            check_state(&mut m, &keys, &model, kt, "delete_string")?;
+            let _ = guard_plain(move || {
+                drop(m);
+                drop(db);
+            });
+        }
+    }
+    Ok(())
+}
+
+fn check_state<T: Kt>(m: &mut FileDbMap<T>, keys: &[Vec<u8>], model: &BTreeMap<Vec<u8>, Vec<u8>>, kt: KtId, after: &str) -> Result<(), (String, String)> {
+    for k in keys {
+        let r = guard(|| m.get(&k[..]));
+        if r != Out::Ok(model.get(k).cloned()) {
+            return Err((format!("{}:state", after.split(' ').next().unwrap_or(after)), format!("{}: after {after} the map differs from what the element-wise calls leave: get({}) gives {:?} instead of {:?}", kt.name(), show(k), r, model.get(k).map(|v| show(v)))));
+        }
+    }
+    if guard(|| m.len()) != Out::Ok(model.len() as u64) {
+        return Err((format!("{}:state", after.split(' ').next().unwrap_or(after)), format!("{}: after {after} len() is not {}", kt.name(), model.len())));
+    }
+    Ok(())
+}
+
+fn c14_job(payload: &[u8], _io: &mut WorkerIo) -> Vec<u8> {
+    let mut r = Rd::new(payload);
+    let kt = KtId::from_u8(r.u8());
+    let max_len = r.u8() as usize;
+    let scratch = Scratch::new("c14");
+    let dir = scratch.fresh("d");
+    let mut evals = 0u64;
+    let res = crate::with_kt!(kt, T => c14_type::<T>(&dir, max_len, &mut evals));
+    let mut out = Buf::new();
+    match res {
+        Ok(()) => result_ok(&mut out, evals, evals),
+        Err((key, msg)) => result_bad(&mut out, &format!("{}:{key}", kt.name()), &msg, evals, payload),
+    }
+    out.0
+}
+
+pub fn c14(tier: &str, seed: u64) -> i32 {
+    let mut ctx = Ctx::new("C14", tier, seed, "exploration");
+    let thorough = ctx.thorough();
+    ctx.pool.reinit(vec![]);
+    ctx.pool.watchdog = std::time::Duration::from_secs(120);
+    let max_len: u8 = if thorough { 5 } else { 4 };
+    let jobs: Vec<Vec<u8>> = KtId::ALL
+        .iter()
+        .map(|k| {
+            let mut b = Buf::new();
+            b.u8(JOB_F_C14).u8(*k as u8).u8(max_len);
+            b.0
+        })
+        .collect();
+    let results = ctx.pool.map(&jobs, |i| i);
+    let mut evals = 0u64;
+    for (i, res) in results.into_iter().enumerate() {
+        match res {
+            JobResult::Done(b) => {
+                let mut r = Rd::new(&b);
+                if r.u8() == 0 {
+                    evals += r.u64();
+                } else {
+                    let key = r.string();
+                    let msg = r.string();
+                    evals += r.u64();
+                    let case = r.vec();
+                    ctx.run.violation(Violation { prop: "C14".into(), key, message: msg.clone(), replay: Replay { engine: "C14".into(), config: vec![], case, story: vec![msg] } });
+                }
+            }
+            JobResult::Crashed { how, .. } => {
+                let msg = format!("bulk calls on key type {}: do not return normally: {how}", KtId::ALL[i].name());
+                ctx.run.violation(Violation { prop: "C14".into(), key: format!("{}:crash", KtId::ALL[i].name()), message: msg.clone(), replay: Replay { engine: "C14".into(), config: vec![], case: jobs[i][1..].to_vec(), story: vec![msg] } });
+            }
+        }
+    }
+    eprintln!("[C14] batches evaluated: {evals}");
+    ctx.run.set("evaluations", J::Int(evals as i64));
+    ctx.run.set("distinct_nontrivial", J::Int(evals as i64));
+    ctx.run.set("rule", J::s(&format!("complete enumeration per key type: a 4-key set whose sort order differs from the order of use (incl. the empty key and non-UTF-8 bytes for byte keys), each of its 16 presence states, every batch up to length {max_len}: bulk_get / bulk_get_string with repetition (all ordered batches), bulk_delete / bulk_delete_string / bulk_put / bulk_put_string without repetition (all ordered selections, each on a fresh map), put_from_iter with repetition up to length 3, put_string / get_string / delete_string; every returned vector is compared position by position with the element-wise model and the final map state with the model; values include invalid UTF-8 so that the lossy decoding is exercised. every (type, presence, call, batch) is distinct")));
+    ctx.run.sample(J::s("bytes: presence 0101, bulk_get [#3,#0,#3,#1]"));
+    ctx.run.sample(J::s("u64: presence 1111, bulk_delete [#2,#0] on a fresh map"));
+    ctx.run.exhaustive = true;
+    let run = ctx.run;
+    drop(ctx.pool);
+    run.finish()
+}
+
+pub fn worker_job(kind: u8, payload: &[u8], io: &mut WorkerIo) -> Vec<u8> {
+    match kind {
+        JOB_F_C09 => c09_job(payload, io),
+        JOB_F_C10 => c10_job(payload, io),
+        JOB_F_C13 => c13_job(payload, io),
+        JOB_F_C14 => c14_job(payload, io),
+        _ => crate::props_g::worker_job(kind, payload, io),
+    }
+}
+
+pub fn _unused() {
+    let _ = SplitMix(0).next();
+    let _: Option<Box<dyn Fn(&abyssiniandb::DbBytes) -> u64>> = None;
+    fn _f<T: DbMap<abyssiniandb::DbBytes>>() {}
+}
